@@ -82,6 +82,12 @@ pub fn run(args: &Args) -> Report {
             texts.push(render(&toks, &mut rng, if i % 3 == 2 { Layout::Loose } else { Layout::Canonical }, i % 9 == 4));
         }
     }
+    if args.replay.is_none() {
+        // hand-kept: the tail of a multi-line block comment that contains // or a quote, with the /end on the same line
+        for body in ["  /* a\n   // b */ /end MEASUREMENT", "  /* a\n   \" */ READ_WRITE /end MEASUREMENT", "  /* x */ /* a\n // b */ READ_WRITE /end MEASUREMENT"] {
+            texts.push(format!("ASAP2_VERSION 1 71\n/begin PROJECT p \"\"\n  /begin MODULE m \"\"\n    /begin MEASUREMENT x \"\" UBYTE NO_COMPU_METHOD 0 0 0 1\n{body}\n    /begin MEASUREMENT y \"\" UBYTE NO_COMPU_METHOD 0 0 0 1\n    /end MEASUREMENT\n  /end MODULE\n/end PROJECT\n"));
+        }
+    }
     for (i, text) in texts.iter().enumerate() {
         let strict = i % 2 == 0;
         let (file, lenient_ident) = match load(text, strict) {
